@@ -7,12 +7,12 @@ import fstree
 import gen
 
 RULE = ("random trees with many ties (few distinct sizes/mtimes, equal names in different directories, multi-digit "
-        "sizes, names and extensions that read like numbers) x key lists of length 1..3 over string/numeric/date columns and integer-valued expressions x "
+        "sizes, names and extensions that read like numbers, directories next to siblings that continue their name with `-`, `.` or a blank) x key lists of length 1..3 over string/numeric/date columns and integer-valued expressions x "
         "directions x positional/explicit keys x with/without WHERE; (a) CLI output vs the Lean model byte for byte, "
         "(b) oracle: permutation of the unordered run + every adjacent pair ordered under an independent Python "
         "comparator. distinct = distinct (tree, argv); nontrivial = result has >= 2 rows")
 
-KEYS = [("name", "s"), ("ext", "s"), ("path", "s"), ("size", "n"), ("hardlinks", "n"), ("uid", "n"),
+KEYS = [("name", "s"), ("ext", "s"), ("path", "s"), ("dir", "s"), ("abspath", "s"), ("size", "n"), ("hardlinks", "n"), ("uid", "n"),
         ("modified", "d"), ("length(name)", "n"), ("mode", "s"), ("is_dir", "s"), ("size + 1", "n"),
         ("size - 100", "n"), ("hardlinks - 3", "n"), ("size * 2 - 150", "n"), ("length(name) - 20", "n"),
         ("dow(modified)", "n"), ("day(modified)", "n"), ("month(modified)", "n"),
@@ -36,6 +36,21 @@ def tie_tree(r):
             if p not in have:
                 have.add(p)
                 ents.append({"path": p, "kind": "f", "size": r.choice(sizes), "mode": 0o644, "mtime": r.choice(mtimes), "lines": 0})
+    if r.chance(1, 2):
+        # a directory next to siblings whose names continue its name with a character below `/` (`-`, `.`, blank):
+        # as text `a-1.txt` < `a.d` < `a/x`, although `a/x` is "inside a"
+        have = {e["path"] for e in ents}
+        base = r.choice(["a", "sub", "k9"])
+        if not any(p == base or p.startswith(base + "/") for p in have):
+            ents.append({"path": base, "kind": "d", "mode": 0o755, "mtime": r.choice(mtimes)})
+            ents.append({"path": base + "/x.txt", "kind": "f", "size": r.choice(sizes), "mode": 0o644, "mtime": r.choice(mtimes), "lines": 0})
+            for nm in r.sample([base + "-1.txt", base + ".d", base + " b", base + ".txt", base + "+"], r.range(2, 4)):
+                if nm not in have:
+                    if nm.endswith(".d"):
+                        ents.append({"path": nm, "kind": "d", "mode": 0o755, "mtime": r.choice(mtimes)})
+                        ents.append({"path": nm + "/y.txt", "kind": "f", "size": r.choice(sizes), "mode": 0o644, "mtime": r.choice(mtimes), "lines": 0})
+                    else:
+                        ents.append({"path": nm, "kind": "f", "size": r.choice(sizes), "mode": 0o644, "mtime": r.choice(mtimes), "lines": 0})
     return ents
 
 
